@@ -636,22 +636,35 @@ func (e *Engine) secondOpinion(fc *FnCtx, o *Obligation, tag string, ri int) {
 		first := o.Status
 		single := fc.sc.renderSingle(o, false)
 		var sat bool
-		for _, sv := range solvers {
-			// (the first back end is retried too: alone in a fresh process it often decides what it gave up on inside the batch)
-			t1 := time.Now()
-			s2 := single
-			if first == "sat" {
-				s2 = fc.sc.renderSingle(o, true)
-			}
-			tg := fmt.Sprintf("%s_r%d", tag, ri)
-			if e.debug != "" && strings.Contains(o.Name, e.debug) {
-				tg = fmt.Sprintf("%s_dbg%d_%s", tag, tagID(o.Name), sv.name)
-				fmt.Printf("debug: %s -> %s/%s.smt2\n", o.Name, e.workDir, tg)
-			}
-			out, _ := e.runSolver(sv, s2, tg, time.Duration(e.timeoutMs+5000)*time.Millisecond)
-			if e.debug != "" && strings.Contains(o.Name, e.debug) {
-				os.WriteFile(e.workDir+"/"+tg+".out", []byte(out), 0o644)
-			}
+		// the back ends run concurrently; their answers are then considered in the fixed order
+		s2 := single
+		if first == "sat" {
+			s2 = fc.sc.renderSingle(o, true)
+		}
+		outs := make([]string, len(solvers))
+		durs := make([]float64, len(solvers))
+		var swg sync.WaitGroup
+		for si, sv := range solvers {
+			swg.Add(1)
+			go func(si int, sv solverSpec) {
+				defer swg.Done()
+				t1 := time.Now()
+				tg := fmt.Sprintf("%s_r%d_%d", tag, ri, si)
+				if e.debug != "" && strings.Contains(o.Name, e.debug) {
+					tg = fmt.Sprintf("%s_dbg%d_%s", tag, tagID(o.Name), sv.name)
+					fmt.Printf("debug: %s -> %s/%s.smt2\n", o.Name, e.workDir, tg)
+				}
+				out, _ := e.runSolver(sv, s2, tg, time.Duration(e.timeoutMs+5000)*time.Millisecond)
+				if e.debug != "" && strings.Contains(o.Name, e.debug) {
+					os.WriteFile(e.workDir+"/"+tg+".out", []byte(out), 0o644)
+				}
+				outs[si], durs[si] = out, time.Since(t1).Seconds()
+			}(si, sv)
+		}
+		swg.Wait()
+		for si, sv := range solvers {
+			out := outs[si]
+			t1 := time.Now().Add(-time.Duration(durs[si] * float64(time.Second)))
 			r := parseResults(out, 1)[0]
 			if o.Cover {
 				if r == "sat" {
